@@ -240,3 +240,113 @@ impl Seek for FuelReader {
         self.inner.seek(pos)
     }
 }
+
+// ---------------------------------------------------------------------------------------------
+// short-read reader: an environment whose `read` answers are owned by the harness
+
+/// A reader over `data` whose `read` never crosses one of the `boundaries` (absolute offsets) and
+/// never returns more than `max_chunk` bytes: a legitimate `Read` implementation (short reads are
+/// allowed by the trait contract) such as a socket, a pipe or a BufReader whose buffer ends inside
+/// a message.
+pub struct SplitReader {
+    data: Vec<u8>,
+    pos: usize,
+    boundaries: Vec<usize>,
+    max_chunk: usize,
+    pub reads: usize,
+}
+
+impl SplitReader {
+    pub fn new(data: Vec<u8>, boundaries: Vec<usize>, max_chunk: usize) -> Self {
+        SplitReader { data, pos: 0, boundaries, max_chunk: max_chunk.max(1), reads: 0 }
+    }
+}
+
+impl Read for SplitReader {
+    fn read(&mut self, buf: &mut [u8]) -> std::io::Result<usize> {
+        self.reads += 1;
+        if self.reads > 64 + 16 * self.data.len() {
+            return Err(std::io::Error::other("fuel exhausted"));
+        }
+        if self.pos >= self.data.len() || buf.is_empty() {
+            return Ok(0);
+        }
+        let mut n = buf.len().min(self.data.len() - self.pos).min(self.max_chunk);
+        if let Some(b) = self.boundaries.iter().find(|b| **b > self.pos) {
+            n = n.min(b - self.pos);
+        }
+        buf[..n].copy_from_slice(&self.data[self.pos..self.pos + n]);
+        self.pos += n;
+        Ok(n)
+    }
+}
+
+impl Seek for SplitReader {
+    fn seek(&mut self, pos: SeekFrom) -> std::io::Result<u64> {
+        let new = match pos {
+            SeekFrom::Start(p) => p as i128,
+            SeekFrom::Current(d) => self.pos as i128 + d as i128,
+            SeekFrom::End(d) => self.data.len() as i128 + d as i128,
+        };
+        if new < 0 {
+            return Err(std::io::Error::new(std::io::ErrorKind::InvalidInput, "negative seek"));
+        }
+        self.pos = new as usize;
+        Ok(self.pos as u64)
+    }
+}
+
+/// Every reader shape of the short-read family for an input of `len` bytes: a single boundary at
+/// every offset (stride for long inputs), and fixed chunk sizes.
+pub fn reader_shapes(len: usize, full: bool) -> Vec<(Vec<usize>, usize)> {
+    let mut v: Vec<(Vec<usize>, usize)> = Vec::new();
+    let stride = if full || len <= 400 { 1 } else { (len / 200).max(1) };
+    let mut p = 1;
+    while p < len {
+        v.push((vec![p], usize::MAX));
+        p += if p < 64 || p + 64 > len { 1 } else { stride };
+    }
+    for c in [1usize, 2, 3, 5, 7, 13, 64, 1000, 8192] {
+        v.push((vec![], c));
+    }
+    // BufReader-like: boundaries at multiples of 8192 / 65536 shifted by a few offsets
+    for off in [0usize, 1, 100, 2431] {
+        v.push(((1..40).map(|k| k * 8192 - off.min(k * 8192 - 1)).collect(), usize::MAX));
+    }
+    v
+}
+
+/// Runs `decode` over every reader shape and requires the same result as with an unrestricted
+/// reader. Returns the number of shapes tried.
+pub fn short_read_check<T: PartialEq>(
+    ctx: &crate::core::Ctx,
+    what: &str,
+    bytes: &[u8],
+    full: bool,
+    decode: impl Fn(&mut SplitReader) -> Option<T>,
+    witness: impl Fn(&(Vec<usize>, usize)) -> serde_json::Value,
+) -> u64 {
+    use crate::core::{guarded, Caught};
+    let base = match guarded(|| decode(&mut SplitReader::new(bytes.to_vec(), vec![], usize::MAX))) {
+        Caught::Ret(b) => b,
+        Caught::Panic(_) => return 0, // reported by the main checks
+    };
+    let mut n = 0;
+    for shape in reader_shapes(bytes.len(), full) {
+        n += 1;
+        let r = guarded(|| decode(&mut SplitReader::new(bytes.to_vec(), shape.0.clone(), shape.1)));
+        match r {
+            Caught::Ret(v) if v == base => {}
+            Caught::Ret(v) => {
+                let kind = if v.is_none() { "well_formed_input_rejected" } else if base.is_none() { "truncated_input_accepted" } else { "different_value" };
+                ctx.fail(
+                    &format!("short_reads:{what}:{kind}"),
+                    || format!("{what}: a reader that returns short reads (boundaries {:?}, max chunk {}) changes the result of decoding {} bytes", &shape.0[..shape.0.len().min(4)], shape.1, bytes.len()),
+                    || witness(&shape),
+                );
+            }
+            Caught::Panic(p) => ctx.fail(&format!("short_reads:{what}:panic"), || p.clone(), || witness(&shape)),
+        }
+    }
+    n
+}
